@@ -18,11 +18,13 @@
                     processor's execution mode; every ROM word is exactly Max_word bits, decodes
                     (opcode index < #opcodes), and every field it mentions is in range: register
                     < 2^R, input < N, output < M, immediate < 2^Rsize, ROM address < 2^O, RAM
-                    address < 2^L, jump location < 2^locBits; every *jump target* of a `ha`-mode
-                    processor is ≤ program length (the simulator rejects a program counter beyond
-                    that); #Slocs + #Vars ≤ 2^O (ha mode); data words are Max_word bits.
+                    address < 2^L, jump location < 2^locBits; #Slocs + #Vars ≤ 2^O (ha mode);
+                    data words are Max_word bits.
     machine         every Processors entry names a domain; the topology's processor port counts
                     are the domains' (N, M); `Topology.wfB`.
+  Separately, `CfClosed`: every *jump target* of a `ha`-mode processor is ≤ program length (the
+  simulator rejects a program counter beyond that).  A source with a literal target inside the
+  ROM but beyond the program is accepted by the tools; such a machine is `WfBM` but not `CfClosed`.
 -/
 import BMV.Encode
 import BMV.Topology
@@ -57,32 +59,52 @@ def sortedStrict : List String → Bool
   | a :: b :: rest => decide (a < b) && sortedStrict (b :: rest)
 
 /-- one operand against its field: in range for the architecture -/
-def operandOk (a : Arch) (plen : Nat) (op : String) : FieldKind → Operand → Bool
+def operandOk (a : Arch) : FieldKind → Operand → Bool
   | .reg, .reg k => decide (k < 2 ^ a.r)
   | .inp, .inp k => decide (k < a.n)
   | .out, .out k => decide (k < a.m)
   | .imm, .num v => decide (v < 2 ^ a.rsize)
-  | .rom, .num v => decide (v < 2 ^ a.o) && (!(isJump op && a.mode == .ha) || decide (v ≤ plen))
+  | .rom, .num v => decide (v < 2 ^ a.o)
   | .ram, .num v => decide (v < 2 ^ a.l)
-  | .loc, .num v => decide (v < 2 ^ a.locBits) && (!(isJump op && a.mode == .ha) || decide (v ≤ plen))
-  | .locO, .num v => decide (v < 2 ^ a.width .locO) && (!(isJump op && a.mode == .ha) || decide (v ≤ plen))
+  | .loc, .num v => decide (v < 2 ^ a.locBits)
+  | .locO, .num v => decide (v < 2 ^ a.width .locO)
   | .const w, .num v => decide (v < 2 ^ w)
   | _, _ => false
 
-def operandsOk (a : Arch) (plen : Nat) (op : String) : List FieldKind → List Operand → Bool
+def operandsOk (a : Arch) : List FieldKind → List Operand → Bool
   | [], [] => true
-  | f :: fs, x :: xs => operandOk a plen op f x && operandsOk a plen op fs xs
+  | f :: fs, x :: xs => operandOk a f x && operandsOk a fs xs
   | _, _ => false
 
 /-- one ROM word: exact width, decodable, every field in range -/
-def wordOk (a : Arch) (plen : Nat) (w : Bits) : Bool :=
+def wordOk (a : Arch) (w : Bits) : Bool :=
   w.length == a.maxWord &&
   match Encode.disasm a w with
   | none => false
   | some i =>
     match layout i.op with
     | none => false
-    | some fs => modeOk i.op a.mode && operandsOk a plen i.op fs i.args
+    | some fs => modeOk i.op a.mode && operandsOk a fs i.args
+
+/-- control-flow closure of one word: a jump target of a `ha`-mode processor is an instruction of
+    the program or the address just past it (where the simulator halts) -/
+def targetOk (a : Arch) (plen : Nat) (op : String) : FieldKind → Operand → Bool
+  | .rom, .num v => !(isJump op && a.mode == .ha) || decide (v ≤ plen)
+  | .loc, .num v => !(isJump op && a.mode == .ha) || decide (v ≤ plen)
+  | .locO, .num v => !(isJump op && a.mode == .ha) || decide (v ≤ plen)
+  | _, _ => true
+
+def targetsOk (a : Arch) (plen : Nat) (op : String) : List FieldKind → List Operand → Bool
+  | f :: fs, x :: xs => targetOk a plen op f x && targetsOk a plen op fs xs
+  | _, _ => true
+
+def wordCf (a : Arch) (plen : Nat) (w : Bits) : Bool :=
+  match Encode.disasm a w with
+  | none => true
+  | some i =>
+    match layout i.op with
+    | none => true
+    | some fs => targetsOk a plen i.op fs i.args
 
 def opsKnown (a : Arch) : Bool := a.ops.all fun op => (layout op).isSome && modeOk op a.mode
 
@@ -94,7 +116,7 @@ def romFits (cp : CP) : Bool :=
 def wfCP (rsize : Nat) (cp : CP) : Bool :=
   cp.arch.rsize == rsize && decide (1 ≤ cp.arch.rsize) &&
   sortedStrict cp.arch.ops && opsKnown cp.arch &&
-  cp.prog.all (wordOk cp.arch cp.prog.length) &&
+  cp.prog.all (wordOk cp.arch) &&
   cp.data.all (fun w => w.length == cp.arch.maxWord) &&
   romFits cp
 
@@ -111,6 +133,11 @@ end WfBM
 def WfBM (bm : BM) : Bool :=
   bm.cps.all (WfBM.wfCP bm.rsize) && WfBM.wfTopo bm
 
+/-- control-flow closure (reported separately: it is not part of the property's statement, but it
+    is what the simulator additionally needs — a program counter beyond the program is an error) -/
+def CfClosed (bm : BM) : Bool :=
+  bm.cps.all fun cp => cp.prog.all (WfBM.wordCf cp.arch cp.prog.length)
+
 namespace WfBM
 
 /-- named verdict per check, for the evidence (which invariant an instance violates) -/
@@ -120,7 +147,7 @@ def explainCP (rsize : Nat) (cp : CP) : List String :=
   (if sortedStrict cp.arch.ops then [] else ["ops-not-strictly-sorted"]) ++
   (if opsKnown cp.arch then [] else ["opcode-unmodelled-or-wrong-mode"]) ++
   (if cp.prog.all (fun w => w.length == cp.arch.maxWord) then [] else ["rom-word-width"]) ++
-  (if cp.prog.all (wordOk cp.arch cp.prog.length) then [] else ["rom-word-field-or-decode"]) ++
+  (if cp.prog.all (wordOk cp.arch) then [] else ["rom-word-field-or-decode"]) ++
   (if cp.data.all (fun w => w.length == cp.arch.maxWord) then [] else ["data-word-width"]) ++
   (if romFits cp then [] else ["rom-too-small"])
 
